@@ -190,6 +190,9 @@ func runC05(c *Ctx, r *Report) {
 	importFoundation(c, r, "C05", "callbacks")
 	importFoundation(c, r, "C05", "open-cleanup")
 	importFoundation(c, r, "C05", "priv-steps")
+	importFoundation(c, r, "C05", "netconf-reader")
+	r.Rule("C05/get-prompt-once", "the generic driver's GetPrompt asks the channel once (a retry on timeout doubles the time the caller waits)", 1)
+	checkGenericGetPromptPassthrough(c, r, "C05/get-prompt-once")
 	r.Rule("C05/operation-constructed", "operation options are only built by their package's NewOperation (whose defaults include Timeout -1 = connection-wide): a struct literal elsewhere has Timeout 0 = maximum", 4)
 	checkOperationConstructed(c, r, "C05/operation-constructed")
 	r.Rule("C05/options", "the per-operation timeout option stores exactly the duration it is given (zero and negative values included: 0 means maximum, -1 the connection-wide value) into the channel / NETCONF operation options", 2)
